@@ -148,6 +148,46 @@ def update_case(rng, dry):
     return case, None
 
 
+def update_tags_case(rng):
+    """update in a clone with version tags: exit 0 => the announced version is strictly greater than the version the run had to
+    start from PER TAG SCOPE (the config value or the newest matching tag), not merely greater than the config value"""
+    import props.c09 as c09
+    vp, old, new, flags, d2 = projgen.gen_states(rng)
+    tree = refimpl.tokenize(vp)
+    cfgv = refimpl.render(tree, old)
+    tags = [x for t in c09.gen_tagset(rng, vp, tree, old) for x in t.split()]
+    tags_branch = sorted(rng.sample(tags, rng.randint(0, len(tags))))
+    scope = rng.choice(["default", "default", "global", "branch"])
+    rx = re.compile(refimpl.ref_regex(tree))
+    valid = [t for t in (tags_branch if scope == "branch" else tags) if rx.fullmatch(t) and c09._date_ok(tree, t)]
+    start = c09.expected_start(scope, cfgv, valid)
+    args = ["update", "--no-fetch"] + projgen.cli_flags({"date": [d2.year, d2.month, d2.day], "flags": flags})
+    case = {"kind": "update-tags", "vp": vp, "config_version": cfgv, "tags": tags, "branch_tags": tags_branch, "scope": scope, "start": start, "args": args}
+    with sandbox.Project("c01t") as p:
+        p.write_text("bumpver.toml", '[bumpver]\ncurrent_version = %s\nversion_pattern = %s\ntag_scope = "%s"\ncommit = false\n[bumpver.file_patterns]\n"bumpver.toml" = [\'current_version = "{version}"\']\n' % (
+            json.dumps(cfgv), json.dumps(vp), scope))
+        p.add_fake_vcs("git")
+        p.fake_set("tags", "".join(t + "\n" for t in tags))
+        p.fake_set("tags_branch", "".join(t + "\n" for t in tags_branch))
+        before = p.snapshot()
+        code, out, exc = sandbox.run_cli(args, p.dir, p.env(), today=dt.date(2026, 9, 29))
+        after = p.snapshot()
+        txt = after["bumpver.toml"].decode("utf-8")
+    m = re.search(r'current_version = "((?:[^"\\]|\\.)*)"', txt)
+    announced = json.loads('"' + m.group(1) + '"') if m else None
+    case.update(exit=code, announced=announced)
+    if code != 0:
+        if after != before:
+            return case, "`bumpver %s` (exit %s) changed %r" % (" ".join(args), code, rwcommon.diff_files(before, after))
+        return case, None
+    if not rx.fullmatch(announced or ""):
+        return case, "update set the version to %r which does not match %r in full" % (announced, vp)
+    if not pep_lt(start, announced):
+        return case, ("update (tag scope %s) set the version to %r, which is not strictly greater than the version it had to start from, %r "
+                      "(config %r, matching tags in scope %r)" % (scope, announced, start, cfgv, valid))
+    return case, None
+
+
 def run(chk, driver, tier):
     rng = chk.rng
     n = 12000 if tier == "thorough" else 700
@@ -178,6 +218,10 @@ def run(chk, driver, tier):
     for i in range(n // 12):
         case, verdict = update_case(rng, dry=(i % 3 == 0))
         chk.count("update")
+        chk.oracle_case(case, verdict)
+    for i in range(n // 6):
+        case, verdict = update_tags_case(rng)
+        chk.count("update-tags:%s:exit%s" % (case["scope"], case["exit"]))
         chk.oracle_case(case, verdict)
     return []
 
